@@ -415,8 +415,74 @@ func c06Run(c *core.Ctx, idx int) {
 		return
 	}
 	web := idx%3 != 0
+	if web && c.Rng.Intn(8) == 0 {
+		c06SelfReferred(c)
+
+		return
+	}
 	items := c06RandomItems(c, web)
 	c06RunItems(c, items, web)
+}
+
+// c06SelfReferred asks the engine about a page whose referrer is the page
+// itself (a reload, a form posting to its own address): the rules matching the
+// request are those that match it with that source, the rules matching the
+// referrer those that match it as a page without a source - one rule may be
+// on both sides, on one, or on neither, depending on its $domain.
+func c06SelfReferred(c *core.Ctx) {
+	var specs []*gen.Spec
+	for i, n := 0, 2+c.Rng.Intn(4); i < n; i++ {
+		sp := &gen.Spec{Pattern: "||ads.com^", Exception: c.Rng.Intn(2) == 0, Important: c.Rng.Intn(3) == 0}
+		switch c.Rng.Intn(5) {
+		case 0:
+			sp.Domains = []gen.Val{{Name: "ads.com"}}
+		case 1:
+			sp.Domains = []gen.Val{{Name: "ads.com", Neg: true}}
+		case 2:
+			sp.Domains = []gen.Val{{Name: "other.org"}}
+		}
+		if sp.Exception && c.Rng.Intn(3) > 0 {
+			sp.DocOpts = [][]string{{"urlblock"}, {"genericblock"}, {"document"}, {"elemhide"}, {"urlblock", "genericblock"}}[c.Rng.Intn(5)]
+		}
+		specs = append(specs, sp)
+		if c.Rng.Intn(6) == 0 {
+			t := sp.Clone()
+			t.Badfilter = true
+			specs = append(specs, t)
+		}
+	}
+	u := []string{"http://ads.com/page", "https://ads.com/", "http://ads.com/page?x=1"}[c.Rng.Intn(3)]
+	var items []c06Item
+	var lines []string
+	for _, sp := range specs {
+		text := sp.Render(c.Rng)
+		lines = append(lines, text)
+		r, err := rules.NewNetworkRule(text, 1)
+		if err != nil {
+			panic(fmt.Sprintf("rule %q rejected: %v", text, err))
+		}
+		if r.Match(rules.NewRequest(u, u, rules.TypeDocument)) {
+			items = append(items, c06Item{Spec: sp, Text: text})
+		}
+		if r.Match(rules.NewRequest(u, "", rules.TypeDocument)) {
+			items = append(items, c06Item{Spec: sp, Text: text, Source: true})
+		}
+	}
+	want := c06Reference(items, true)
+	c.NonTrivial(core.Hash64(append([]string{"self", u}, util.Sorted(lines)...)...))
+	c.Event("self_referred_pages", 1)
+	for k := 0; k < 2; k++ {
+		eng := urlfilter.NewEngine(util.StorageSplit(c.Rng, util.Shuffle(c.Rng, lines)))
+		sel := eng.MatchRequest(rules.NewRequest(u, u, rules.TypeDocument)).GetBasicResult()
+		c.Eval(1)
+		if got := util.Class(sel); got != want {
+			w := c06Witness{Via: "Engine.MatchRequest(page referred by itself)", Rules: lines, Got: got, Reference: want}
+			if sel != nil {
+				w.GotRule = sel.RuleText
+			}
+			c.Violation("class-mismatch:self-referred", nil, w, "Engine.MatchRequest(%s referred by itself) over %v: verdict %s (%s), reference %s", u, lines, got, w.GotRule, want)
+		}
+	}
 }
 
 func c06RunItems(c *core.Ctx, items []c06Item, web bool) {
@@ -552,6 +618,7 @@ func init() {
 		Rule: "exhaustive part: every subset of up to 3 (thorough 4) shapes of a 45-shape catalogue (request-side: exception x important x {generic, $domain-specific, ~domain-only}, document-level exceptions, $dnsrewrite, $stealth, badfilter twins; referrer-side: document-level exceptions (also with two options on one rule) x important, plain rules, $stealth, badfilter twins) in ALL permutations; sampled part: multisets of 1..5 (one in forty: 13..60, in 24 PRNG-drawn orders) matching rules (plus badfilter twins) over {exception} x {important} x {generic, $domain-specific, ~domain-only} x {no doc modifier, urlblock, genericblock, elemhide, document} x {$dnsrewrite} x {$stealth}, request-side and referrer-side; " +
 			"ALL permutations of every multiset through NewMatchingResult / GetDNSBasicRule, and every fifth permutation through Engine.MatchRequest, NetworkEngine.Match and DNSEngine.MatchRequest with a random split into 1..3 lists; " +
 			"one sampled multiset in twelve also holds two different rules whose whole texts have the same 32-bit hash (block vs exception, plain vs important); " +
+			"one web case in eight is a page referred by itself (NewRequest(u, u, TypeDocument)): which rules are on the request side and which on the referrer side is established with Match, the verdict by the reference; " +
 			"oracle = precedence reference on specs (class in block/allow/none) plus invariants on the selected rule; non-trivial = every multiset (distinct by sorted rule texts and sides)",
 		Assumptions: []string{
 			"a referrer-level $urlblock exception suppresses every blocking rule including $important ones, as the statement says 'every blocking rule'",
